@@ -355,11 +355,11 @@ Proof.
     pose proof (fold_hex_le ds 0 ltac:(lia) Fh) as Bd.
     assert (16 ^ len ds <= 16 ^ U_TAIL_DIGITS) by (apply Z.pow_le_mono_r; unfold len; lia). nia. }
   destruct r2 as [|d t2].
-  { destruct (take_hex_upto (Z.to_nat U_TAIL_DIGITS) []) as [ds r] eqn:T. simpl in H. try rewrite T in H. inversion H; subst. eapply ALT2; eassumption. }
+  { destruct (take_hex_upto (Z.to_nat U_TAIL_DIGITS) []) as [ds r] eqn:T. simpl in H. try rewrite T in H. inversion H; subst. first [eapply ALT2; eassumption | eapply ALT2; reflexivity]. }
   destruct ((48 <=? d) && (d <=? 48 + U_LEAD_MAX)) eqn:Ld.
-  2: { destruct (take_hex_upto (Z.to_nat U_TAIL_DIGITS) (d :: t2)) as [ds r] eqn:T. simpl in H. try rewrite T in H. inversion H; subst. eapply ALT2; eassumption. }
+  2: { destruct (take_hex_upto (Z.to_nat U_TAIL_DIGITS) (d :: t2)) as [ds r] eqn:T. simpl in H. try rewrite T in H. inversion H; subst. first [eapply ALT2; eassumption | eapply ALT2; reflexivity]. }
   destruct (take_hex_exact (Z.to_nat U_TAIL_DIGITS) t2) as [[ds r]|] eqn:TE.
-  2: { destruct (take_hex_upto (Z.to_nat U_TAIL_DIGITS) (d :: t2)) as [ds r] eqn:T. simpl in H. try rewrite T in H. inversion H; subst. eapply ALT2; eassumption. }
+  2: { destruct (take_hex_upto (Z.to_nat U_TAIL_DIGITS) (d :: t2)) as [ds r] eqn:T. simpl in H. try rewrite T in H. inversion H; subst. first [eapply ALT2; eassumption | eapply ALT2; reflexivity]. }
   inversion H; subst. clear H. destruct (take_hex_exact_spec _ _ _ _ TE) as [Fh Ln].
   apply andb_prop in Ld. destruct Ld as [D1 D2]. apply Z.leb_le in D1, D2.
   assert (Hd : hexv d = d - 48) by (unfold hexv, is_dec; replace ((48 <=? d) && (d <=? 57)) with true; [reflexivity | symmetry; apply andb_true_intro; split; apply Z.leb_le; lia]).
